@@ -46,23 +46,35 @@ Proof. exact client_conformant. Qed.
 Print Assumptions C08_client_conformant.
 
 (** Wire to backend: every lexical variant of the RFC 4791 document of a
-    valid request reaches the backend as exactly that request. *)
+    valid request that stays below encoding/xml's nesting limit
+    ([fits_request]: errUnmarshalDepth at 10000 levels, a comp-filter in a
+    comp-filter costs two) reaches the backend as exactly that request. *)
 Theorem C08_server_denotes :
   forall (href_fmt : string -> string) (href_parse : string -> option string) path r doc,
-    valid href_fmt href_parse r = true ->
+    valid href_fmt href_parse r = true -> fits_request r = true ->
     lexvar (rfc_write href_fmt r) doc ->
     handle_report href_parse path doc = Ok (backend_call_of path r).
 Proof. exact server_denotes. Qed.
 Print Assumptions C08_server_denotes.
 
-(** Client to backend: whatever the caller can express arrives at the
-    backend of the server unchanged, instants as UTC seconds. *)
+(** Client to backend: whatever the caller can express, nested below the
+    limit, arrives at the backend of the server unchanged, instants as UTC
+    seconds.  The premise is about the caller's value, not about XML. *)
 Theorem C08_end_to_end :
   forall (href_fmt : string -> string) (href_parse : string -> option string) path r,
-    expressible href_fmt href_parse r = true ->
+    expressible href_fmt href_parse r = true -> fits_request r = true ->
     handle_report href_parse path (client_body href_fmt path r) = Ok (backend_call_of path (normalise r)).
 Proof. exact end_to_end. Qed.
 Print Assumptions C08_end_to_end.
+
+(** A request whose comp-filters are nested at most 4997 deep and whose
+    component requests at most 4999 deep is below the limit, whatever else it
+    contains ([fits_request] itself is exact: it depends on what the innermost
+    filters carry). *)
+Theorem C08_fits_by_depth :
+  forall r, (req_cf_depth r <= 4997)%N -> (req_cr_depth r <= 4999)%N -> fits_request r = true.
+Proof. exact fits_by_depth. Qed.
+Print Assumptions C08_fits_by_depth.
 
 (** "Nothing altered": normalisation keeps the second of every instant and
     sets its zone offset to 0, and is the identity on requests whose instants
@@ -104,21 +116,18 @@ Print Assumptions C08_client_model_meets_spec.
 (** The two Coq models of the CalDAV server's REPORT decoding — this one
     ([CalWire.handle_report]: which request value reaches the backend) and C13's
     ([ServerTotal.cal_handle_report]: which status is answered, whether the
-    backend is reached) — describe the same function on every report body tree
-    nested at most 5000 elements deep: [Err c] here iff ServerTotal answers the
-    400 of [bad_request] (c = 400; this model never yields another code nor a
-    panic), [Ok (BQuery ..)] iff ServerTotal consults QueryCalendarObjects (with a
-    filter structure whose decoding is the query's filter), [Ok (BMultiget ..)]
-    iff ServerTotal runs the GetCalendarObject loop over the same hrefs.
-    [tr] translates ServerTotal's trees into CalWire's; [r_url_ok] and
-    [href_parse] are the two models' views of url.Parse.
-    PARTIAL: the premise [2 * height t <= MAXD] cannot be dropped, see the
-    next theorem. *)
-Theorem C08_agrees_with_server_total_model_partial :
+    backend is reached) — describe the same function on EVERY report body tree,
+    encoding/xml's nesting limit included: [Err c] here iff ServerTotal answers
+    the 400 of [bad_request] (c = 400; this model never yields another code nor
+    a panic), [Ok (BQuery ..)] iff ServerTotal consults QueryCalendarObjects
+    (with a filter structure whose decoding is the query's filter),
+    [Ok (BMultiget ..)] iff ServerTotal runs the GetCalendarObject loop over the
+    same hrefs.  [tr] translates ServerTotal's trees into CalWire's;
+    [r_url_ok] and [href_parse] are the two models' views of url.Parse. *)
+Theorem C08_agrees_with_server_total_model :
   forall (href_parse : string -> option string) env r t path,
     ServerTotal.is_content_xml r = true -> ServerTotal.r_xml r = ServerTotal.XTree t ->
     (forall s, ServerTotal.r_url_ok r s = some_b (href_parse s)) ->
-    (2 * height t <= ServerTotal.MAXD)%N ->
     match handle_report href_parse path (tr t) with
     | Err c =>
       c = 400%N /\ ServerTotal.cal_handle_report env r = ServerTotal.bad_request
@@ -139,15 +148,4 @@ Theorem C08_agrees_with_server_total_model_partial :
     | Panic => False
     end.
 Proof. exact agrees_with_cal_handle_report. Qed.
-Print Assumptions C08_agrees_with_server_total_model_partial.
-
-(** The models DO differ beyond that depth: ServerTotal models encoding/xml's
-    nesting limit (errUnmarshalDepth at 10000; each struct field costs up to two
-    levels), CalWire does not.  4999 comp-filters nested in each other are
-    handed to the backend by both; 5000 still by CalWire, ServerTotal answers
-    400 — as the real caldav.Handler does (notes/C08.md). *)
-Theorem C08_models_differ_beyond_depth_limit :
-  cw_reaches_backend (deep_doc (N.to_nat 4998)) = true /\ st_reaches_backend (deep_doc (N.to_nat 4998)) = true
-  /\ cw_reaches_backend (deep_doc (N.to_nat 4999)) = true /\ st_answers_400 (deep_doc (N.to_nat 4999)) = true.
-Proof. exact models_differ_beyond_depth_limit. Qed.
-Print Assumptions C08_models_differ_beyond_depth_limit.
+Print Assumptions C08_agrees_with_server_total_model.
